@@ -753,10 +753,11 @@ def merge_history(rng, hid, extras):
     ops += ["SNAP g", "SNAP r"] + twin + ["MERGE g r %d %d" % (left, right), "SNAP r", "KEYS g"]
     # continuation of reads after the merge: every datum of the old left vertices, twice
     if not extras:
-        for v in lkept + liso:
-            ops += ["DATA g %d" % v, "DATA g2 %d" % v]
-        for v in lkept[:3]:
-            ops += ["DATA g %d" % v, "DATA g2 %d" % v]
+        # (only vertices that are still present according to the bookkeeping of the twin: a read may collect others)
+        for v in lkept + liso + lkept[:3]:
+            if v in t.present:
+                ops += ["DATA g %d" % v, "DATA g2 %d" % v]
+                t.data(v)
         ops += ["KEYS g", "KEYS g2"]
     meta = {"left": left, "right": right, "extras": bool(riso), "cap": cap, "twin": bool(twin)}
     return History(hid, N, ops, meta)
